@@ -7,7 +7,12 @@ the union of the component correspondences, re-run under the placement / build /
 walker over the API that no component models (formatters, serializers).  A case fails the property when the
 implementation's observation matches the property's failure predicate `fails(obs, case)` defined in
 lib/props.d/Cnn.py (e.g. an abort by SIGSEGV on a guard page, a panic, a hang) and is not in a listed known class.
-A component's *value* disagreement is that component's own property; it is recorded here as model_drift only.
+A component's *value* disagreement is that component's own property when the component IS a property's module
+(`prop=`); it is recorded here as model_drift only.  A component that belongs to no property of its own (`name=` with
+a real driver: util, cstrfmt) has its theorems restated in the cross-cutting Properties files, so a disagreement
+with its model (agree=0) or a failure of its Spec oracle (oracle=0) breaks the correspondence those theorems rest
+on: it is reported by every property that lists the component, with the input as the replay, and - when the
+property's own failure predicate does not fire on that input - with the words no-failing-input-found.
 """
 import glob, hashlib, json, os, re, time
 from concurrent.futures import ThreadPoolExecutor
@@ -47,6 +52,11 @@ def parse_env(text):
 
 
 def check_meta(pid, tier, seed, replay):
+    if replay and not any(l.startswith("CASE ") for l in open(replay)):
+        # replay of a broken proof obligation / build / infrastructure report: there is no input to re-run, the
+        # reproduction is the check itself
+        print("replay file %s names no input (a proof, build or infrastructure report): re-running the %s check" % (replay, tier))
+        replay = None
     t0 = time.time()
     cfg = PROPS[pid]
     log = []
@@ -94,7 +104,7 @@ def check_meta(pid, tier, seed, replay):
             print("replay file lacks the '# component=.. build=.. env=..' line")
             return 2
         name, build, env = m.group(1), m.group(2), parse_env(m.group(3))
-        bad = 0
+        bad = soft = 0
         for line in head.split("\n"):
             if line.startswith("CASE "):
                 case_text = line.split(" ", 2)[2]
@@ -106,8 +116,19 @@ def check_meta(pid, tier, seed, replay):
                 print("verdict: %s%s" % (why or "ok", " (known class %s)" % cls if cls in known else ""))
                 if why and cls not in known:
                     bad += 1
+                elif not why and not by_name[name].get("prop") and built[name][0] and not comp_cfg(by_name[name]).get("driver_cmd") and not obs.startswith("!"):
+                    rc, rl = run_driver(built[name][0], ["CASE 0 " + case_text, "OBS 0 " + obs])
+                    _, _, rres, rmodel = analyse([], rl)
+                    r = rres.get("0", {})
+                    print("MODEL %s" % rmodel.get("0", "")[:600])
+                    print("correspondence: agree=%s oracle=%s" % (r.get("agree", "-"), r.get("oracle", "-")))
+                    if r.get("agree") != "1" or r.get("oracle") == "0":
+                        soft += 1
         if bad:
             print("VIOLATION property=%s replay=%s" % (pid, replay))
+            return 1
+        if soft:
+            print("VIOLATION property=%s replay=%s no-failing-input-found" % (pid, replay))
             return 1
         return 0
 
@@ -200,6 +221,16 @@ def check_meta(pid, tier, seed, replay):
         else:
             failing.append(c)
     drift = [c for c, r in res.items() if r.get("agree") == "0"]
+    unowned = {comp_name(c) for c in comps if not c.get("prop") and not comp_cfg(c).get("driver_cmd")}
+    corr_broken = []   # cases of an un-owned component whose model or Spec oracle rejects the implementation's answer
+    for c, r in res.items():
+        if where.get(c, ("?",))[0] in unowned and c not in failing and not obs.get(c, "!").startswith("!") and (r.get("agree") == "0" or r.get("oracle") == "0"):
+            if fails(obs.get(c, ""), cases.get(c, "")):
+                continue       # a known class of this property
+            corr_broken.append(c)
+    for c in obs:
+        if where.get(c, ("?",))[0] in unowned and c not in res and not obs[c].startswith("!"):
+            corr_broken.append(c)   # the driver produced no verdict for an observation
     nontrivial = set()
     tagcount, percomp = {}, {}
     for c in obs:
@@ -211,6 +242,9 @@ def check_meta(pid, tier, seed, replay):
                 tagcount[name + ":" + t] = tagcount.get(name + ":" + t, 0) + 1
         if r.get("nontrivial") == "1":
             nontrivial.add(hashlib.sha1(cases.get(c, c).encode()).hexdigest())
+    nomem = sum(v for k, v in tagcount.items() if k.endswith(":skipped-nomem"))
+    if nomem:
+        infra.append("%d case(s) were skipped because a large sparse mapping could not be created (tag skipped-nomem)" % nomem)
     implfaults = {}
     for c, o in obs.items():
         if o.startswith("!"):
@@ -224,7 +258,7 @@ def check_meta(pid, tier, seed, replay):
         case = cases[cid]
         token = fails(obs[cid], case)
         try:
-            if cfg.get("shrink", True):
+            if cfg.get("shrink", True) and token:
                 scfg = dict(comp_cfg(by_name[name]))
                 case = shrink_case(pid, scfg, None, None, case, 0, lambda t: fails(run_one(name, bname, env, t), t) == token)
         except Exception as e:
@@ -241,6 +275,11 @@ def check_meta(pid, tier, seed, replay):
         cid = sorted(failing, key=lambda c: len(cases.get(c, "")))[0]
         path = write_replay(cid, "the implementation's observation violates the property: %s" % fails(obs[cid], cases[cid]))
         violations.append("VIOLATION property=%s replay=%s" % (pid, path))
+    elif corr_broken:
+        cid = sorted(corr_broken, key=lambda c: len(cases.get(c, "")))[0]
+        r = res.get(cid, {})
+        path = write_replay(cid, "correspondence of component %s broken: the extracted model / Spec oracle rejects the implementation's answer (agree=%s oracle=%s; %d such cases); the property's own failure predicate does not fire on it, so no failing input of %s is exhibited" % (where[cid][0], r.get("agree", "-"), r.get("oracle", "-"), len(corr_broken), pid))
+        violations.append("VIOLATION property=%s replay=%s no-failing-input-found" % (pid, path))
     elif infra:
         path = os.path.join(VERIF, "replays", "%s-infra.case" % pid)
         open(path, "w").write("# the check could not run as configured; the property is not shown to hold on this run\n# %s\n" % "\n# ".join(infra))
@@ -291,6 +330,7 @@ def check_meta(pid, tier, seed, replay):
             "failing_cases": len(failing) + sum(1 for _ in seen_known),
             "failure_reasons": reasons,
             "model_drift": len(drift),
+            "unowned_component_correspondence_failures": len(corr_broken),
             "per_component": percomp,
             "input_distribution": tagcount,
             "implementation_faults": implfaults,
